@@ -19,9 +19,12 @@ def heading(state: StateBlock, startLine: int, endLine: int, silent: bool) -> bo
     if state.is_code_block(startLine):
         return False
 
+    if pos >= maximum:
+        return False
+
     ch: str | None = state.src[pos]
 
-    if ch != "#" or pos >= maximum:
+    if ch != "#":
         return False
 
     # count heading level
